@@ -213,7 +213,9 @@ func c16Programs(w *fw.Worker, visit func(src string, prog *pt.Prog)) {
 		src = c16UseGlobals(src)
 		prog, errs, _ := run.Parse(src)
 		if prog == nil {
-			w.Internal("C16: a fixed program is not accepted by the parser: " + fmt.Sprint(errs) + "\n" + src)
+			// see the same case in c06.go: left out and reported as incomplete coverage, not as a verdict about the VM
+			w.Count("fixed-program-rejected", 1)
+			w.NotExhaustive("a hand-written program is not accepted by this tree's parser and was left out: " + fw.FirstLine(fmt.Sprint(errs)) + " in " + fw.Trunc(src, 60))
 			continue
 		}
 		p, err := astconv.Prog(prog)
